@@ -1,7 +1,7 @@
 (* C10 — round trip of whole commands and of Parser.Parse: parse (print c) = c for every encoding. *)
 From Coq Require Import List NArith Bool Lia String Arith.
 From Gluon Require Import Gen.FactsTokens Model.ImapTokens Model.ImapGrammar Model.ImapPrinter
-  Proofs.ImapTokenFacts Proofs.ImapRoundTrip.
+  Proofs.ImapTokenFacts Proofs.ImapRoundTrip Proofs.ImapRoundTripFetch Proofs.ImapRoundTripSearch.
 Import ListNotations.
 Open Scope N_scope.
 Local Notation length := List.length.
@@ -28,19 +28,8 @@ Proof. intro. repeat split. Qed.
 Lemma F_sp_char : forall x, tok_is TT_Char (cur_tok (32 :: x)) = false.
 Proof. reflexivity. Qed.
 
-Definition kw_ok (kw : string) : bool := forallb is_lower_alpha (s2b kw).
-Lemma kw_ok_spec : forall kw, kw_ok kw = true -> all_lower_alpha (s2b kw).
-Proof. intros kw H c Hc. unfold kw_ok in H. rewrite forallb_forall in H. apply H. exact Hc. Qed.
-
-(* keyword followed by something that is not a letter *)
-Lemma kw_step : forall kw k rest, EncKw kw k -> kw_ok kw = true -> tok_is TT_Char (cur_tok rest) = false ->
-  p_kw (k ++ rest) = ROk (s2b kw) rest.
-Proof. intros kw k rest E K Hr. apply kw_rt; [exact E|apply kw_ok_spec; exact K|exact Hr]. Qed.
-
 Lemma sp_rt : forall rest, sp (32 :: rest) = ROk 32 rest.
 Proof. reflexivity. Qed.
-
-Ltac step tac := cbv beta iota; erewrite bind_ok; [|tac].
 
 (* ------------------------------------------------------------------ argument parsers of the simple commands *)
 Lemma login_rt : forall u p e1 e2 rest, EncAString u e1 -> EncAString p e2 -> F_end rest ->
@@ -185,7 +174,7 @@ Lemma sel_split : forall c e, EncSel c e -> forall fuel rest, (length e < fuel)%
                  tok_is TT_Char (cur_tok (args ++ rest)) = false /\
                  sel_parser fuel c (args ++ rest) = ROk c rest.
 Proof.
-  intros c e H fuel rest Hl Hr. destruct H as [mv s m k e1 e2 Hk H1 H2|s a silent fl k e1 ea kf ks ef Hk H1 Ha Hf Hs Hfl].
+  intros c e H fuel rest Hl Hr. destruct H as [mv s m k e1 e2 Hk H1 H2|s a silent fl k e1 ea kf ks ef Hk H1 Ha Hf Hs Hfl|s atts k e1 e2 Hk H1 H2|cs keys k e Hk He].
   - exists k, (32 :: e1 ++ 32 :: e2). split; [reflexivity|]. split; [exact Hk|]. split; [destruct mv; reflexivity|].
     split; [reflexivity|]. cbn [sel_parser app]. repeat (rewrite <- app_assoc; cbn [app]).
     apply copy_rt; try assumption.
@@ -200,13 +189,24 @@ Proof.
       cbn [length]. rewrite app_length. cbn [length] in *. lia. }
     repeat (rewrite app_length in Hl; cbn [length] in Hl).
     apply store_rt; try assumption; lia.
+  - exists k, (32 :: e1 ++ 32 :: e2). split; [reflexivity|]. split; [exact Hk|]. split; [reflexivity|].
+    split; [reflexivity|]. cbn [sel_parser app]. repeat (rewrite <- app_assoc; cbn [app]).
+    pose proof (sep_list_length _ _ _ _ _ H1) as L1.
+    repeat (rewrite app_length in Hl; cbn [length] in Hl).
+    destruct Hr as (r' & ->). apply fetch_rt; try assumption; try lia. exists r'. reflexivity.
+  - exists k, e. split; [reflexivity|]. split; [exact Hk|]. split; [reflexivity|].
+    split.
+    + destruct He as [(_ & Hne & Ht)|(K & ecs & t & -> & _)]; [|reflexivity].
+      destruct Ht; [congruence|reflexivity].
+    + cbn [sel_parser]. rewrite app_length in Hl. destruct Hr as (r' & ->).
+      apply search_rt; [exact He|lia|exists r'; reflexivity].
 Qed.
 
-Lemma payload_sel : forall fuel c, match c with SFetch _ _ | SSearch _ _ => False | _ => True end ->
+Lemma payload_sel : forall fuel c, True ->
   p_payload fuel (s2b (sel_kw c)) = (x <- sel_parser fuel c ;; ret (CSel false x)).
-Proof. intros fuel [[|] s m|s a si fl|s a|cs k] H; try contradiction; reflexivity. Qed.
+Proof. intros fuel [[|] s m|s a si fl|s a|cs k] H; reflexivity. Qed.
 
-Lemma uid_sel_dispatch : forall fuel c, match c with SFetch _ _ | SSearch _ _ => False | _ => True end ->
+Lemma uid_sel_dispatch : forall fuel c, True ->
   (fun k => if kw_is k "expunge" then sp ;;; s <- p_seqset fuel ;; ret (CUidExpunge s)
             else if kw_is k "copy" then c <- p_copy fuel false ;; ret (CSel true c)
             else if kw_is k "move" then c <- p_copy fuel true ;; ret (CSel true c)
@@ -214,9 +214,9 @@ Lemma uid_sel_dispatch : forall fuel c, match c with SFetch _ _ | SSearch _ _ =>
             else if kw_is k "search" then c <- p_search fuel ;; ret (CSel true c)
             else if kw_is k "store" then c <- p_store fuel ;; ret (CSel true c)
             else fail) (s2b (sel_kw c)) = (x <- sel_parser fuel c ;; ret (CSel true x)).
-Proof. intros fuel [[|] s m|s a si fl|s a|cs k] H; try contradiction; reflexivity. Qed.
+Proof. intros fuel [[|] s m|s a si fl|s a|cs k] H; reflexivity. Qed.
 
-Lemma uid_sel : forall fuel c rest args, match c with SFetch _ _ | SSearch _ _ => False | _ => True end ->
+Lemma uid_sel : forall fuel c rest args, True ->
   forall k, EncKw (sel_kw c) k -> kw_ok (sel_kw c) = true -> tok_is TT_Char (cur_tok (args ++ rest)) = false ->
   sel_parser fuel c (args ++ rest) = ROk c rest ->
   p_uid fuel (32 :: k ++ args ++ rest) = ROk (CSel true c) rest.
@@ -226,8 +226,89 @@ Proof.
   rewrite (uid_sel_dispatch fuel c Hc). step ltac:(exact Hp). reflexivity.
 Qed.
 
-Lemma enc_sel_kind : forall c e, EncSel c e -> match c with SFetch _ _ | SSearch _ _ => False | _ => True end.
-Proof. intros c e H. destruct H; exact I. Qed.
+(* ------------------------------------------------------------------ ID *)
+Lemma nstring_val_rt : forall s bs rest, EncNString s bs ->
+  exists v, p_nstring (bs ++ rest) = ROk v rest /\ match v with Some x => x | None => [] end = s.
+Proof.
+  intros s bs rest H. rewrite (nstring_rt s bs rest H). destruct H as [H|(-> & H)].
+  - rewrite (string_starts s bs rest H). exists (Some s). split; reflexivity.
+  - destruct (starts_string (bs ++ rest)); [exists (Some []); split; reflexivity|exists None; split; reflexivity].
+Qed.
+
+Lemma id_params_rt : forall l e, EncIdParams l e -> forall fuel rest, (length l <= fuel)%nat ->
+  p_id_params fuel (e ++ 41 :: rest) = ROk l (41 :: rest).
+Proof.
+  intros l e H. induction H as [|k v ek ev Hk Hv|k v ek ev l t Hk Hv Hne _ IH]; intros fuel rest Hl.
+  - cbn [app]. destruct fuel; reflexivity.
+  - destruct fuel as [|fuel]; [cbn in Hl; lia|]. cbn [p_id_params]. rewrite <- app_assoc. cbn [app].
+    rewrite (string_starts k ek _ Hk).
+    destruct (nstring_val_rt v ev (41 :: rest) Hv) as (vv & Ev & Evv).
+    assert (P : (k0 <- p_string;; sp;;; v0 <- p_nstring;; rp <- p_check (tok_is TT_RParen);;
+                 (if rp then ret tt else sp;;; ret tt);;; ret (k0, match v0 with Some s => s | None => [] end))
+                (ek ++ 32 :: ev ++ 41 :: rest) = ROk (k, v) (41 :: rest)).
+    { step ltac:(apply string_rt; exact Hk). step ltac:(apply sp_rt). step ltac:(exact Ev).
+      step ltac:(reflexivity). cbv beta iota. change (tok_is TT_RParen (cur_tok (41 :: rest))) with true. cbv iota.
+      step ltac:(reflexivity). cbv beta. rewrite Evv. reflexivity. }
+    rewrite P. destruct fuel; reflexivity.
+  - destruct fuel as [|fuel]; [cbn in Hl; lia|]. cbn [p_id_params]. repeat (rewrite <- app_assoc; cbn [app]).
+    rewrite (string_starts k ek _ Hk).
+    destruct (nstring_val_rt v ev (32 :: t ++ 41 :: rest) Hv) as (vv & Ev & Evv).
+    assert (P : (k0 <- p_string;; sp;;; v0 <- p_nstring;; rp <- p_check (tok_is TT_RParen);;
+                 (if rp then ret tt else sp;;; ret tt);;; ret (k0, match v0 with Some s => s | None => [] end))
+                (ek ++ 32 :: ev ++ 32 :: t ++ 41 :: rest) = ROk (k, v) (t ++ 41 :: rest)).
+    { step ltac:(apply string_rt; exact Hk). step ltac:(apply sp_rt). step ltac:(exact Ev).
+      step ltac:(reflexivity). cbv beta iota. change (tok_is TT_RParen (cur_tok (32 :: t ++ 41 :: rest))) with false. cbv iota.
+      step ltac:(cbv beta iota; erewrite bind_ok; [|apply sp_rt]; reflexivity). cbv beta. rewrite Evv. reflexivity. }
+    rewrite P. rewrite IH; [reflexivity|cbn in Hl; lia].
+Qed.
+
+Lemma id_params_length : forall l e, EncIdParams l e -> (length l <= S (length e))%nat.
+Proof.
+  intros l e H. induction H; cbn [length]; [lia| |]; repeat (rewrite app_length; cbn [length]); lia.
+Qed.
+
+(* ------------------------------------------------------------------ APPEND *)
+Lemma append_rt : forall m fl dt lit em efl edt elit rest fuel,
+  EncMailbox m em -> EncAppendFlags fl efl -> EncAppendDate dt edt -> EncLiteral lit elit ->
+  (length fl <= S fuel)%nat ->
+  p_append fuel (32 :: em ++ 32 :: efl ++ edt ++ elit ++ rest) = ROk (CAppend m fl dt lit) rest.
+Proof.
+  intros m fl dt lit em efl edt elit rest fuel Hm Hf Hd Hlit Hl. unfold p_append.
+  step ltac:(apply sp_rt). step ltac:(apply mailbox_rt; [exact Hm|reflexivity]). step ltac:(apply sp_rt).
+  assert (LitStart : forall x, cur_tok (elit ++ x) = TT_LCurly) by (intro x; destruct Hlit as (ds & -> & _); reflexivity).
+  assert (DateStart : forall d x y, EncDateTime d x -> cur_tok (x ++ y) = TT_DQuote).
+  { intros d x y (ed & em' & ey & eh & emi & es & sign & ezh & ezm & zh & zm & -> & _). reflexivity. }
+  (* the date part, common to both flag forms *)
+  assert (Tail : forall fl0, (fun fl1 => dt0 <- (fun bs => if cur_tok bs =? TT_LCurly then ROk None bs
+                                                       else (d <- p_date_time;; sp;;; ret (Some d)) bs);;
+                                   lit0 <- p_literal;; ret (CAppend m fl1 dt0 lit0)) fl0 (edt ++ elit ++ rest)
+                             = ROk (CAppend m fl0 dt lit) rest).
+  { intro fl0. cbv beta. destruct dt as [d|]; cbn in Hd.
+    - destruct Hd as (x & -> & Hx). repeat (rewrite <- app_assoc; cbn [app]).
+      step ltac:(rewrite (DateStart d x _ Hx); cbv iota;
+                 cbv beta iota; erewrite bind_ok; [|apply date_time_rt; exact Hx];
+                 cbv beta iota; erewrite bind_ok; [|apply sp_rt]; reflexivity).
+      step ltac:(apply literal_rt; exact Hlit). reflexivity.
+    - subst edt. cbn [app]. step ltac:(rewrite LitStart; reflexivity).
+      step ltac:(apply literal_rt; exact Hlit). reflexivity. }
+  destruct Hf as [[-> ->]|(x & -> & Hx)].
+  - cbn [app]. step ltac:(idtac).
+    2:{ assert (NP : (cur_tok (edt ++ elit ++ rest) =? TT_LParen) = false).
+        { destruct dt as [d|]; cbn in Hd.
+          - destruct Hd as (y & -> & Hy). rewrite <- app_assoc. rewrite (DateStart d y _ Hy). reflexivity.
+          - subst edt. cbn [app]. rewrite LitStart. reflexivity. }
+        rewrite NP. reflexivity. }
+    apply Tail.
+  - repeat (rewrite <- app_assoc; cbn [app]). step ltac:(idtac).
+    2:{ assert (P : (cur_tok (x ++ 32 :: edt ++ elit ++ rest) =? TT_LParen) = true).
+        { destruct fl; [cbn in Hx; subst x; reflexivity|]. destruct Hx as (inner & -> & _). reflexivity. }
+        rewrite P. cbv beta iota; erewrite bind_ok; [|apply flag_list_rt; [exact Hx|exact Hl]].
+        cbv beta iota; erewrite bind_ok; [|apply sp_rt]. reflexivity. }
+    apply Tail.
+Qed.
+
+Lemma enc_sel_kind : forall c e, EncSel c e -> True.
+Proof. intros; exact I. Qed.
 
 Lemma F_end_cons : forall r, F_end r -> tok_is TT_Char (cur_tok r) = false.
 Proof. exact F_end_char. Qed.
@@ -238,7 +319,8 @@ Lemma cmd_rt : forall c e, EncCmd c e -> forall fuel rest, (length e < fuel)%nat
 Proof.
   intros c e H fuel rest Hl Hr.
   destruct H as [k e Hk|k m e1 e2 Hk Hm|a b k e1 e2 Hk H1 H2|lsub m p k e1 e2 Hk H1 H2|u p k e1 e2 Hk H1 H2
-                |m atts k e1 e2 Hk H1 H2|c e Hs|c k e Hk Hs|s k1 k2 e Hk1 Hk2 Hs].
+                |m atts k e1 e2 Hk H1 H2|c e Hs|c k e Hk Hs|s k1 k2 e Hk1 Hk2 Hs
+                |k e Hk Hn|l k e Hk Hp|m fl dt lit k em efl edt elit Hk Hm Hf Hd Hlit].
   - step ltac:(apply (kw_step _ e rest Hk); [destruct k; reflexivity|apply F_end_char; exact Hr]).
     destruct k; reflexivity.
   - rewrite <- app_assoc. cbn [app].
@@ -277,6 +359,29 @@ Proof.
     step ltac:(apply seqset_rt; [exact Hs| |apply F_end_seq; exact Hr]).
     + reflexivity.
     + pose proof (sep_list_length _ _ _ _ _ Hs) as L. repeat (rewrite app_length in Hl; cbn [length] in Hl). lia.
+  - repeat (rewrite <- app_assoc; cbn [app]).
+    step ltac:(apply (kw_step _ k _ Hk); reflexivity).
+    change (p_payload fuel (s2b "id")) with (p_id fuel). unfold p_id.
+    step ltac:(apply sp_rt). cbv beta.
+    rewrite (fold_first_letter "NIL" 78 (s2b "IL") e rest eq_refl eq_refl Hn). cbv iota.
+    step ltac:(apply bytes_fold_rt; exact Hn). reflexivity.
+  - repeat (rewrite <- app_assoc; cbn [app]).
+    step ltac:(apply (kw_step _ k _ Hk); reflexivity).
+    change (p_payload fuel (s2b "id")) with (p_id fuel). unfold p_id.
+    step ltac:(apply sp_rt). cbv beta. change (cur_tok (40 :: e ++ 41 :: rest) =? TT_Char) with false. cbv iota.
+    step ltac:(apply consume_rt; reflexivity).
+    step ltac:(apply (id_params_rt l e Hp)).
+    + step ltac:(apply consume_rt; reflexivity). reflexivity.
+    + pose proof (id_params_length l e Hp) as L. repeat (rewrite app_length in Hl; cbn [length] in Hl). lia.
+  - repeat (rewrite <- app_assoc; cbn [app]).
+    step ltac:(apply (kw_step _ k _ Hk); reflexivity).
+    change (p_payload fuel (s2b "append")) with (p_append fuel).
+    apply append_rt; try assumption.
+    assert (L : (length fl <= S (length efl))%nat).
+    { destruct Hf as [[-> ->]|(x & -> & Hx)]; [cbn; lia|].
+      destruct fl; [cbn; lia|]. destruct Hx as (inner & -> & Hx). apply sep_list_length in Hx.
+      cbn [length]. repeat (rewrite app_length; cbn [length]). cbn [length] in Hx. lia. }
+    repeat (rewrite app_length in Hl; cbn [length] in Hl). lia.
 Qed.
 
 (* ------------------------------------------------------------------ Parser.Parse *)
